@@ -578,7 +578,8 @@ def entry_twins(cr: CaseRun, answers: list[str], meta: dict, rng: random.Random,
         else:
             a = [(s, r, x) for (s, r, x) in cr.exchanges]
             b = [(s, r, x) for (s, r, x) in tw.exchanges]
-            ra, rb = [(s.res, s.tl) for s in cr.steps], [(s.res, s.tl) for s in tw.steps]
+            ra = [(s.res, s.tl, s.notes.get("tb_ok")) for s in cr.steps]
+            rb = [(s.res, s.tl, s.notes.get("tb_ok")) for s in tw.steps]      # tb_ok: the surfaced exception object is untouched
             if a != b:
                 i = next((i for i, (x, y) in enumerate(zip(a, b)) if x != y), min(len(a), len(b)))
                 fails.append((f"C12/exchanges-differ/{name}",
